@@ -1,8 +1,64 @@
-(** Property C02 -- every disposal is fully covered by earlier lots; no lot is ever overspent.
-    INTERIM: the conservation theorems are being proved in Proofs/SpecProps.v + Proofs/MatcherRefine.v. *)
-From RP2V Require Import Base.Prelude Base.Time Base.Dec Model.Types Model.Generated Model.Matcher Model.MatchSpec.
+(** Property C02 -- every disposal is fully covered by earlier lots; no lot is ever overspent. *)
+From RP2V Require Import Base.Prelude Base.Time Base.Dec Model.Types Model.Generated Model.Matcher Model.MatchSpec
+  Model.MatchWf Model.FracSpec Proofs.MatcherProps.
 Open Scope Z_scope.
 
-Theorem C02_always_repush : gen_always_repush = true.
-Proof. reflexivity. Qed.
-Print Assumptions C02_always_repush.
+(** the run either succeeds or fails with the "lots exhausted" error -- nothing else *)
+Theorem C02_total : forall lots sched evs, wf lots sched evs ->
+  (exists fs, run_matcher gen_always_repush lots sched evs = Ok fs) \/
+  run_matcher gen_always_repush lots sched evs = Err EExhausted.
+Proof. exact m_total. Qed.
+
+(** it fails exactly when, at some disposal, the lots acquired so far cannot cover the disposals
+    so far -- whatever the accounting method *)
+Theorem C02_fails_iff : forall lots sched evs, wf lots sched evs ->
+  (run_matcher gen_always_repush lots sched evs = Err EExhausted <->
+   exists j d, (j < length evs)%nat /\ e_earn (nth j evs d) = false /\ have lots (e_us (nth j evs d)) < need evs j).
+Proof. exact m_fails_iff. Qed.
+
+Theorem C02_fractions_positive : forall lots sched evs, wf lots sched evs ->
+  forall fs, run_matcher gen_always_repush lots sched evs = Ok fs -> forall f, In f fs -> 0 < f_amt f.
+Proof. exact m_positive. Qed.
+
+(** the fractions of every taxable event sum exactly to the full amount leaving the holder *)
+Theorem C02_event_fully_covered : forall lots sched evs, wf lots sched evs ->
+  forall fs, run_matcher gen_always_repush lots sched evs = Ok fs ->
+  forall e, In e evs -> ev_taken fs (e_row e) = e_amt e.
+Proof. exact m_event_covered. Qed.
+
+(** no lot is overspent at any point of the history *)
+Theorem C02_no_lot_overspent : forall lots sched evs, wf lots sched evs ->
+  forall fs, run_matcher gen_always_repush lots sched evs = Ok fs ->
+  forall k i, (i < length lots)%nat -> 0 <= rem_after lots (firstn k fs) i.
+Proof. exact m_no_overspend. Qed.
+
+(** fractions belong to taxable events only; lot-less exactly for income; income once in full
+    (that no fraction comes from a lot acquired after the disposal is part of C01_order) *)
+Theorem C02_only_events : forall lots sched evs, wf lots sched evs ->
+  forall fs, run_matcher gen_always_repush lots sched evs = Ok fs ->
+  forall f, In f fs -> exists e, In e evs /\ e_row e = f_ev f /\ (f_lot f = None <-> e_earn e = true).
+Proof. exact m_only_events. Qed.
+
+Theorem C02_income_once : forall lots sched evs, wf lots sched evs ->
+  forall fs, run_matcher gen_always_repush lots sched evs = Ok fs ->
+  forall e, In e evs -> e_earn e = true -> filter (frac_of_ev (e_row e)) fs = [mk_frac lots e None (e_amt e)].
+Proof. exact m_earn_once. Qed.
+
+(** disposing of the entire remaining holding always succeeds and leaves every lot exactly exhausted *)
+Theorem C02_sell_all : forall lots sched evs fs,
+  wf lots sched evs -> run_matcher gen_always_repush lots sched evs = Ok fs ->
+  forall e, e_earn e = false -> wf lots sched (evs ++ [e]) ->
+    (forall i, (i < length lots)%nat -> lot_us lots i <= e_us e) ->
+    e_amt e = sumZ (map (rem_after lots fs) (seq 0 (length lots))) ->
+    exists fs', run_matcher gen_always_repush lots sched (evs ++ [e]) = Ok (fs ++ fs') /\
+                forall i, (i < length lots)%nat -> rem_after lots (fs ++ fs') i = 0.
+Proof. exact m_sell_all. Qed.
+
+Print Assumptions C02_total.
+Print Assumptions C02_fails_iff.
+Print Assumptions C02_fractions_positive.
+Print Assumptions C02_event_fully_covered.
+Print Assumptions C02_no_lot_overspent.
+Print Assumptions C02_only_events.
+Print Assumptions C02_income_once.
+Print Assumptions C02_sell_all.
